@@ -544,10 +544,14 @@ class E(object):
     def __init__(self, tag):
         self.tag = tag
         self.a = vsc.rand_bit_t(3)
+    @vsc.constraint
+    def ce(self):
+        self.a != 7
 
 @vsc.randobj
 class T(object):
     def __init__(self, n):
+        self.rebuild = None
         self.k = vsc.bit_t(2)
         self.l = vsc.%(ctor)s(E(-1))
         for i in range(n):
@@ -555,6 +559,14 @@ class T(object):
         self.m = vsc.randsz_list_t(E(-1))
         for i in range(%(n2)d):
             self.m.append(E(50 + i))
+    def pre_randomize(self):
+        if self.rebuild is not None:
+            # the list is rebuilt for this call: the new objects are random in it, their own block applies
+            self.l.clear()
+            self.made = [E(self.rebuild[0] + i) for i in range(self.rebuild[1])]
+            for e in self.made:
+                self.l.append(e)
+            self.rebuild = None
     @vsc.constraint
     def c0(self):
 %(size_stmt)s        with vsc.foreach(self.l, idx=True) as i:
@@ -581,8 +593,10 @@ def objlist_cases(d):
             ops.append(["append"])
         elif r < 72:
             ops.append(["clear"])
-        elif r < 88:
+        elif r < 82:
             ops.append(["setitem", d.randint(0, 3)])
+        elif r < 91:
+            ops.append(["rebuild", d.randint(0, 4)])     # pre_randomize of the next call clears the list and appends n new objects
         else:
             ops.append(["setk", d.randint(0, 3)])
     ops.append(["call", d.seed()])
@@ -634,8 +648,9 @@ def run_objlist(case):
 
     def feasible(i, o):
         if rand_elems:
-            return any(op(a, i + k) for a in range(8))
-        return op(int(o.a), i + k)
+            return any(op(a, i + k) for a in range(7))       # (the element's own block excludes 7)
+        return op(0 if o is None else int(o.a), i + k)     # (None: an object pre_randomize is going to create; a starts at 0)
+    pending = [None]
     for step, o_ in enumerate(case["ops"]):
         where = "step %d %s" % (step, cjson(o_))
         try:
@@ -661,9 +676,16 @@ def run_objlist(case):
             elif o_[0] == "setk":
                 top.k = o_[1]
                 k = o_[1]
+            elif o_[0] == "rebuild":
+                tag[0] += 100
+                pending[0] = [tag[0], o_[1]]
+                top.rebuild = list(pending[0])
+                info["edits"] += 1
         except Exception as e:
             reset_library()
             return [Vo("library_exception", "%s: %s" % (o_[0], exc_sig(e)), where + " raised %r" % (e,))], info
+        if o_[0] == "rebuild":
+            continue
         if o_[0] != "call":
             got = list(top.l)
             if len(got) != len(cur) or any(a is not b for a, b in zip(got, cur)) or len(top.l) != len(cur) or \
@@ -671,6 +693,11 @@ def run_objlist(case):
                 return [Vo("edit_on_wrong_list", "an edit of an object list did not act on exactly the exposed list", 
                            where + ": list holds tags %s, expected %s" % ([getattr(x, "tag", "?") for x in got], [x.tag for x in cur]))], info
             continue
+        rebuilt = pending[0]
+        pending[0] = None
+        if rebuilt is not None:
+            removed += [(e, int(e.a)) for e in cur]
+            cur = [None] * rebuilt[1]
         # reference: which sizes are possible
         if case.get("size"):
             sizes = [s_ for s_ in range(case["size"][0], case["size"][1] + 1) if s_ <= len(cur) and all(feasible(i, cur[i]) for i in range(s_))]
@@ -679,8 +706,15 @@ def run_objlist(case):
         mspec_ = (case.get("m") or {"size": [0, 0]})["size"]
         if mspec_[0] > len(curm):
             sizes = []
-        before = [int(e.a) for e in cur]
+        before = [0 if e is None else int(e.a) for e in cur]
         st, exc = flat.do_call(ns, top, "randomize", None, o_[1])
+        if rebuilt is not None and st != "exc":
+            # the objects pre_randomize created, in order
+            made = list(getattr(top, "made", []))
+            if len(made) != rebuilt[1] or top.rebuild is not None:
+                return [Vo("edit_on_wrong_list", "pre_randomize did not run before the solve", where + ": %d objects made, %d expected" % (len(made), rebuilt[1]))], info
+            cur = made
+            info["rebuilds"] = info.get("rebuilds", 0) + 1
         if st == "exc":
             reset_library()
             return [Vo("library_exception", "randomize: " + exc.sig, where + " raised %r" % (exc,))], info
@@ -718,6 +752,9 @@ def run_objlist(case):
                            where + ": element %d (tag %s) has a=%d, body: a %s %d" % (i, e.tag, int(e.a), case["op"], i + k))], info
             if not rand_elems and int(e.a) != before[i]:
                 return [Vo("nonrandom_list_changed", "an element of a non-random object list changed", where)], info
+            if rand_elems and int(e.a) == 7:
+                return [Vo("list_constraint_violated", "the own constraint block of a list element is not enforced", 
+                           where + ": element %d (tag %s) has a=7, its block says a != 7" % (i, e.tag))], info
         removed += [(e, int(e.a)) for e in cur[n:]]
         cur = got
         for e, v in removed:
